@@ -207,7 +207,11 @@ def strat_pinn():
             for _ in range(draw(st.integers(1, 3))):
                 lo = draw(st.integers(0, m - 1))
                 hi = draw(st.integers(lo + 1, m))
-                shared.append(lo if (hi - lo == 1 and draw(st.booleans())) else [lo, hi])
+                if hi - lo == 1 and draw(st.booleans()):
+                    # a bare int, possibly negative (python indexing: -1 is the last output)
+                    shared.append(lo - m if draw(st.booleans()) else lo)
+                else:
+                    shared.append([lo, hi])
         return {"eq_type": eq_type, "dim_x": dx, "widths": widths, "acts": acts, "m": m,
                 "tin": draw(st.sampled_from(["none", "affine", "periodic"])), "tout": draw(st.sampled_from(["none", "hard", "scale"])),
                 "shared": shared, "key": draw(st.integers(0, 2**31 - 1)), "theta": draw(q16(0.5, 2)), "beta": draw(q16(-1, 1)),
@@ -272,9 +276,9 @@ def strat_spinn():
     def s(draw):
         eq_type = draw(st.sampled_from(["statio_PDE", "nonstatio_PDE"]))
         d = draw(st.integers(1 if eq_type == "statio_PDE" else 2, 3))
-        B = draw(st.integers(1, 3))
+        B = draw(st.sampled_from([1, 2, 2, 3, 3]))
         cols = [draw(st.lists(q16(-2, 2), min_size=3, max_size=3, unique=True)) for _ in range(3)]
-        return {"eq_type": eq_type, "d": d, "r": draw(st.integers(1, 4)), "m": draw(st.integers(1, 3)), "B": B,
+        return {"eq_type": eq_type, "d": d, "r": draw(st.sampled_from([1, 2, 2, 3, 4])), "m": draw(st.sampled_from([1, 2, 2, 3, 3])), "B": B,
                 "h": draw(st.integers(1, 5)), "act": draw(st.sampled_from(["tanh", "sin", "softplus"])),
                 "key": draw(st.integers(0, 2**31 - 1)), "cols": cols}
 
